@@ -127,6 +127,17 @@ Section Main.
     (forall sl', ~ In (EStart x sl') pre) /\ (forall sl', ~ In (EStart x sl') post).
   Proof. intros Hr Etr. eapply (started_once p jobs stop orc s); [now apply reachable_inv | exact Etr]. Qed.
 
+  Lemma main_all_run_when_nothing_fails :
+    (forall o, fails p orc o = false) ->
+    forall s, final_state p jobs stop orc s -> stopped s = false ->
+    forall o, o < n -> ost s o = SUCCEEDED.
+  Proof.
+    intros Hnf s Hf Hst o. induction o as [o IH] using lt_wf_ind. intros Ho.
+    destruct (main_classification s o Hf Hst Ho) as (_ & _ & H3 & _).
+    apply H3. split; [|apply Hnf].
+    intros d Hd. destruct wf as (Wlt & _). pose proof (Wlt o Ho d Hd). apply IH; [assumption | unfold n in *; lia].
+  Qed.
+
   (* ---- C04 ---- *)
   Lemma main_limits s :
     reachable p jobs stop orc s ->
